@@ -15,7 +15,11 @@ limitations under the License.
 
 package syncutil
 
-import "sync"
+import (
+	"sync"
+
+	"oras.land/oras-go/v2/internal/verifhook"
+)
 
 // mergeStatus represents the merge status of an item.
 type mergeStatus struct {
@@ -80,6 +84,7 @@ func (m *Merge[T]) Do(item T, prepare func() error, resolve func(items []T) erro
 
 // assign adds a new item into the item list.
 func (m *Merge[T]) assign(item T) <-chan mergeStatus {
+	verifhook.Point("merge.assign")
 	m.lock.Lock()
 	defer m.lock.Unlock()
 
@@ -102,6 +107,7 @@ func (m *Merge[T]) assign(item T) <-chan mergeStatus {
 // commit closes the assignment window, and the assigned items will be ready
 // for resolve.
 func (m *Merge[T]) commit() []T {
+	verifhook.Point("merge.commit")
 	m.lock.Lock()
 	defer m.lock.Unlock()
 
@@ -112,6 +118,7 @@ func (m *Merge[T]) commit() []T {
 // complete completes the previous merge, and moves the pending items to the
 // stage for the next merge.
 func (m *Merge[T]) complete(err error) {
+	verifhook.Point("merge.complete")
 	// notify results
 	if err == nil {
 		close(m.status)
